@@ -53,7 +53,8 @@ class Contract:
                  use_as_callee: bool = True, max_paths: int = 4000, facts: Optional[List[str]] = None,
                  note: str = "", allow_sym_writes: bool = False, inline_depth: int = 8,
                  replay: Optional[str] = None, expect_paths: int = 1, ob_timeout_ms: Optional[int] = None,
-                 assumed: bool = False, justification: str = ""):
+                 assumed: bool = False, justification: str = "", pure: Optional[List[str]] = None):
+        self.pure = pure or []  # qualname prefixes treated as uninterpreted pure functions
         self.assumed = assumed  # trusted contract of a function outside the verifier's reach: never "proved"
         self.justification = justification
         self.target = target
